@@ -48,6 +48,13 @@ def run(ck):
         loops = rn.loops()
         lp = [blk for h, blk in loops.items() if disp[0].bb in blk]
         ck.verdict(bool(lp) and any(any(l.bb in blk for l in loads) for blk in lp), "1", "T5-loop-exit", rn, "stop-examined-every-iteration", "the loop that dispatches also re-examines the stop flag on every iteration", "the dispatch loop of run() never re-examines the stop flag: stop() followed by wakeup() does not end run()", site=rn.where(disp[0].bb))
+        # the flag is read *after* the user code of an iteration: a stop() issued by a source callback, an idle or the
+        # per-iteration closure must be seen before the next wait begins ("after finishing at most the iteration in
+        # progress"). Every path from the end of a user-code site of the loop to the next dispatch passes a load.
+        user = [cs for cs in rn.calls() if not rn.is_cleanup(cs.bb) and ((cs.name in ("call_mut", "call", "call_once") and cs.self_ty is not None and f.types[f.peel_refs(cs.self_ty)].get("k") == "param") or (cs.callee_body() is not None and cs.name in ("dispatch", "dispatch_events", "dispatch_idles")))]
+        for u in user:
+            bad = T.t2_all_exits(rn, [u.to], [l.bb for l in loads], exits={d.bb for d in disp})
+            ck.verdict(bad is None, "1", "T3-must-precede", rn, "stop-read-after:%s" % (u.name if u.callee_body() is not None else "per-iteration-closure"), "between the end of this user-code site and the next wait the stop flag is read afresh", "run() can start another wait after %s without reading the stop flag again (it acts on a value read earlier in the iteration): a stop() issued from there is honoured one whole iteration late (or, with a None timeout and no further event, never)" % (u.name if u.callee_body() is not None else "the per-iteration closure"), site=rn.where(u.bb), path=path_descr(rn, bad) if bad else None)
         # from the stop edge every path returns (no further dispatch)
         bad = rn.find_path([x for _, x in stop_edges], [d.bb for d in disp])
         ck.verdict(bad is None, "1", "T2-all-exits", rn, "stop=>no-further-dispatch", "once the stop flag is observed no further dispatch is started", "run() keeps dispatching after having observed the stop flag", site=rn.where(loads[0].bb))
